@@ -41,7 +41,7 @@ CLAIMED = {
   text="Deductive proof on the real relayed-socket code: UDPConn.WriteTo hands data to the client transport only after createPermission returned nil for the destination, which it does only with the permission in state Permitted, a state reached only after a CreatePermission answered with a success response (ghost `granted`); ChannelData is used only for a binding in a state ok() accepts, those states are reachable only for bindings the server confirmed (ghost `confirmed`, set only where bind() sees the success response; state-machine invariant through startBinding / bindChannel / handleBindChannelError / recoverChannelBindBadRequest), the binding is the one registered under exactly this peer's address string and the frame carries its number, payload and length (via the ChannelData.Encode contract); each new binding gets the next unused number in 0x4000-0x7FFF (up to 16384 bindings); inbound ChannelData / Data indications are handed to the socket with the peer bound to the channel / named in XOR-PEER-ADDRESS and exactly the frame's payload; delivery to the reader and to the accept queue never blocks (queue-full drops; defect fixed); ReadFrom returns at most len(p) bytes or an error with n == 0.",
   ref="9 (C13)", note="NOT decided: FIFO order and content of Go channels between HandleInbound and ReadFrom (only non-nil-ness of queued records is an invariant), read deadlines in real time, concurrent writers (A1: a call is atomic w.r.t. other goroutines except at blocking transactions, where the invariants are preserved by every writer - argued, not proved), 'up to 16384 peers' is proved per creation under the range-not-exhausted precondition. tcp_alloc.go's DialTCP path is covered only by the shared createPermission contract.", technique=TECH),
  "C14": dict(
-  text="Necessary conditions only, proved on the real code: the allocation refresh timer runs at half the granted lifetime, the permission refresh every 120 s and the binding check every 30 s with re-bind after 5 min (all strictly inside the server-side 5 min / 10 min timeouts: lemma over the constants); each refresh is sent to the server and waits for the answer; a 438 answer makes the client adopt the nonce of THAT ANSWER (Refresh, CreatePermission and ChannelBind paths) and retry at most 3 times; a success answer's LIFETIME becomes the allocation's lifetime; Close stops the timers, closes the socket once and sends Refresh with lifetime 0 without waiting.",
+  text="Necessary conditions only, proved on the real code: the allocation refresh timer runs at half the granted lifetime, the permission refresh every 120 s and the binding check every 30 s with re-bind after 5 min (all strictly inside the server-side 5 min / 10 min timeouts: lemma over the constants); each refresh is sent to the server and waits for the answer; a 438 answer makes the client adopt the nonce of THAT ANSWER (Refresh, CreatePermission and ChannelBind paths) and retry at most 3 times; a success answer's LIFETIME becomes the allocation's lifetime; Close stops the timers, closes the socket once and sends Refresh with lifetime 0 without waiting; on the server side the lifetimes the client's cadence is measured against are the configured ones or the documented defaults (NewServer, readLoop, the ChannelBind / CreatePermission handlers pass them on unswapped).",
   ref="9 (C14)", note="The liveness conclusion of the property ('data keeps flowing for any duration') is NOT decidable by contracts on this code and is not claimed: timers firing (A2), the server's behaviour (C06/C07 contracts on the server side), and loss are outside. Also observed, not a violation of C14 as stated: refreshAllocation returns nil for an error response other than 438.", technique=TECH),
  "C15": dict(
   text="Deductive proof with ghost counters: relay generators leave no socket open on error paths; GetRandomEvenPort closes every probe socket; CreateAllocation opens exactly one relay socket/listener and fires one created event on success and nothing on failure; DeleteAllocation closes the allocation and fires exactly one deleted event iff the key existed; Close is idempotent, stops the timer, removes all TCP connections and closes the relay; TCP connection removal closes exactly once.",
